@@ -636,6 +636,32 @@ def gen_mp_linefill(ctx, thorough):
                 yield Case("mp", bs, ct, [body[j:j + 1] for j in range(len(body))], exp, tag)
 
 
+def gen_mp_hdrquirks(ctx, thorough):
+    """conforming encodings whose quoted parameter values / header values contain text that looks like
+    another parameter or header (finding C15_hdrparse): ` filename=` / ` name=` inside a quoted name,
+    `Content-Transfer-Encoding: ` inside a Content-Type parameter, `Content-Type: ` inside an encoding"""
+    rng = ctx.rng
+    names = [b"a filename=", b"a filename=b", b"x filename=y; z", b" filename=", b"filename=", b"a name=b", b"name=",
+             b"k=v", b"a; filename=q", b"form-data; name=x"]
+    fnames = [None, b"y.txt", b"a name=b", b" name=", b"x; name=z"]
+    ctypes = [None, b"text/plain", b'text/plain; x="Content-Transfer-Encoding: foo"', b"text/x; Content-Type: a/b",
+              b'a/b; q="Content-disposition: form-data; name=zz"']
+    encs = [None, b"binary", b"x-Content-Type: evil", b'8bit; c="content-type: t/t"']
+    ct = MULTIPART + b"; boundary=XyZ"
+    combos = [(n, f, t, e) for n in names for f in fnames for t in ctypes for e in encs]
+    if not thorough:
+        combos = [c for i, c in enumerate(combos) if i % 7 == 0 or (c[1] in (None, b"y.txt") and c[2] is None and c[3] is None)]
+    for n, f, t, e in combos:
+        parts = [{"name": n, "filename": f, "ctype": t, "enc": e, "value": b"v1"},
+                 {"name": b"z", "filename": None, "ctype": None, "enc": None, "value": b"t"}]
+        body = enc_multipart(rng, b"XyZ", parts)
+        exp = expected_multipart(parts)
+        yield Case("mp", 256, ct, [body], exp, "mp-hdrquirk")
+        yield Case("mp", 257, ct, random_split(rng, body, 6), exp, "mp-hdrquirk")
+        if thorough:
+            yield Case("mp", 300, ct, [body[j:j + 1] for j in range(len(body))], exp, "mp-hdrquirk")
+
+
 def gen_mp_malformed(ctx, thorough):
     rng = ctx.rng
     n = 40000 if thorough else 1500
@@ -798,6 +824,7 @@ class Spec:
         yield from gen_mp_limits(ctx, th)
         yield from gen_mp_borders(ctx, th)
         yield from gen_mp_linefill(ctx, th)
+        yield from gen_mp_hdrquirks(ctx, th)
         yield from gen_mp_cases(ctx, th, nested=True)
         yield from gen_mp_malformed(ctx, th)
 
